@@ -7,7 +7,7 @@ use gmsol_solana_utils::instruction_group::{
     AtomicGroupOptions, GetInstructionsOptions, ParallelGroupOptions,
 };
 use gmsol_solana_utils::transaction_group::{TransactionGroup, TransactionGroupOptions};
-use gmsol_solana_utils::utils::transaction_size_with_luts;
+use gmsol_solana_utils::utils::{transaction_size, transaction_size_with_luts};
 use gmsol_solana_utils::{AtomicGroup, ParallelGroup};
 use hcommon::*;
 use solana_sdk::address_lookup_table::AddressLookupTableAccount;
@@ -132,6 +132,36 @@ fn exec_inner(t: &[&str], cx: &mut Ctx) -> Option<String> {
                 };
                 if big { cx.known.push(("F-C41-compact".into(), format!("estimate {est} below serialized {wire}"))); }
                 else { cx.fails.push(format!("size estimate {est} is below the real serialized size {wire}")); }
+            }
+            Some(format!("est {est} wire {wire}"))
+        }
+        "sizeset" if t.len() == 6 => {
+            // `transaction_size`, as `TransactionBuilder::transaction_size` calls it: the union of all
+            // lookup-table addresses and the number of tables
+            let payer = pk(t[2].parse().ok()?);
+            let ver = match t[3] { "1" => true, "0" => false, _ => return None };
+            let ixs = p_ixs(t[5])?;
+            let (est, luts) = if t[4] == "none" {
+                (transaction_size(payer, &ixs, ver, None, 0), AddressLookupTables::default())
+            } else {
+                let l = mk_luts(&p_luts(t[4])?);
+                let union = l.addresses();
+                (transaction_size(payer, &ixs, ver, Some(&union), l.len()), l)
+            };
+            let wire = real_len(&payer, &ixs, ver, &luts).ok()?;
+            cx.nt = !ixs.is_empty();
+            if est == wire { cx.stats.push("sizeset.exact"); }
+            if est < wire && !ver && t[4] != "none" { cx.stats.push("size.legacy_with_luts_underestimate"); }
+            else if est < wire {
+                let big = ver && {
+                    let accounts: Vec<AddressLookupTableAccount> = luts.accounts().collect();
+                    v0::Message::try_compile(&payer, &ixs, &accounts, Hash::default()).map(|m| {
+                        let over: usize = m.address_table_lookups.iter().map(|l| (l.writable_indexes.len() >= 128) as usize + (l.readonly_indexes.len() >= 128) as usize).sum();
+                        over > 0 && wire - est <= over
+                    }).unwrap_or(false)
+                };
+                if big { cx.known.push(("F-C41-compact".into(), format!("estimate {est} below serialized {wire}"))); }
+                else { cx.fails.push(format!("transaction_size estimate {est} is below the real serialized size {wire}")); }
             }
             Some(format!("est {est} wire {wire}"))
         }
@@ -263,7 +293,14 @@ impl G<'_> {
 
 fn gen_req(r: &mut Rng) -> String {
     let mut g = G { r, next_id: 0 };
-    match g.r.below(10) {
+    match g.r.below(12) {
+        10 | 11 => {
+            let n = g.r.range(0, 6);
+            let ixs: Vec<String> = (0..n).map(|_| g.ix(true)).collect();
+            let ver = g.r.chance(4, 5);
+            let luts = if g.r.chance(1, 5) { "none".to_string() } else { g.luts() };
+            format!("txp sizeset {} {} {} {}", g.payer(), ver as u8, luts, if ixs.is_empty() { "-".into() } else { ixs.join("+") })
+        }
         0..=3 => {
             let n = g.r.range(0, 6);
             let ixs: Vec<String> = (0..n).map(|_| g.ix(true)).collect();
